@@ -149,6 +149,8 @@ def run(cx: Cx):
                              "the try block in build() contains more than the iteration of the value: an unrelated TypeError "
                              "would silently turn a collection into a single value", where=cx.where(build, n.lineno))
     check_pure(cx, build.qualname)
+    from .common import check_result_fresh
+    check_result_fresh(cx, build.qualname)
 
     # ------------------------------------------------------------ declaration API
     addp = cx.fn(PL + '.add_parameter')
